@@ -725,12 +725,25 @@ func bitwiseRightShift(n, s Number) (Number, error) {
 	case Integer:
 		switch s := s.(type) {
 		case Integer:
-			return Integer(n >> s), nil
+			return shiftRightI(n, s), nil
 		default:
 			return nil, typeError(validTypeInteger, s, nil)
 		}
 	default:
 		return nil, typeError(validTypeInteger, n, nil)
+	}
+}
+
+// shiftRightI returns n bit-shifted by s to the right, or by -s to the left if s is negative.
+// A negative shift amount as it is would make Go panic.
+func shiftRightI(n, s Integer) Integer {
+	switch {
+	case s >= 0:
+		return n >> s
+	case s == minInt: // -s is not representable. Every bit is shifted out anyway.
+		return 0
+	default:
+		return n << -s
 	}
 }
 
@@ -740,7 +753,10 @@ func bitwiseLeftShift(n, s Number) (Number, error) {
 	case Integer:
 		switch s := s.(type) {
 		case Integer:
-			return Integer(n << s), nil
+			if s == minInt { // -s is not representable. Every bit is shifted out anyway.
+				return shiftRightI(n, maxInt), nil
+			}
+			return shiftRightI(n, -s), nil
 		default:
 			return nil, typeError(validTypeInteger, s, nil)
 		}
